@@ -190,7 +190,7 @@ def build(sc):
         # custom attributes of several kinds: a text, and - on every second task - values that are falsy or None
         extra = {'owner': None, 'ticket': 0, 'note': ''} if len(objs) % 2 == 0 else {}
         attrs = {k: _special_value(v) for k, v in attrs.items()}
-        objs.append(Task(tid, name='n%s' % tid, tag='g%s' % tid, **extra, **attrs))
+        objs.append(Task(tid, name='n%s' % (tid,), tag='g%s' % (tid,), **extra, **attrs))
     for t in objs:
         for k, v in list(vars(t).items()):
             if isinstance(v, str) and v.startswith('@task'):
